@@ -329,7 +329,15 @@ impl ToSocketAddrs for UdpLocator {
                 );
                 Ok(Some(SocketAddr::V4(address)).into_iter())
             }
-            LOCATOR_KIND_UDP_V6 => todo!(),
+            LOCATOR_KIND_UDP_V6 => {
+                let address = std::net::SocketAddrV6::new(
+                    Ipv6Addr::from(locator_address),
+                    self.0.port() as u16,
+                    0,
+                    0,
+                );
+                Ok(Some(SocketAddr::V6(address)).into_iter())
+            }
             _ => Err(std::io::ErrorKind::InvalidInput.into()),
         }
     }
